@@ -133,6 +133,10 @@ class Enumerator:
             return self.const_of(n.args[1], st)
         if isinstance(n, (ast.Tuple, ast.List, ast.Dict, ast.Set, ast.ListComp, ast.DictComp, ast.JoinedStr)):
             return NONNULL
+        if isinstance(n, ast.BinOp) and isinstance(n.op, (ast.Add, ast.Sub, ast.Mult)):
+            a, b = self.const_of(n.left, st), self.const_of(n.right, st)
+            if all(isinstance(x, (int, float)) and not isinstance(x, bool) for x in (a, b)):
+                return a + b if isinstance(n.op, ast.Add) else (a - b if isinstance(n.op, ast.Sub) else a * b)
         return TOP
 
     def relset(self, l, r, st):
